@@ -3,6 +3,7 @@
 import os, random, sys
 sys.path.insert(0, os.path.dirname(os.path.abspath(__file__)))
 import vlib, scen, lcheck
+import c13
 
 PID = "C07"
 PAIRS = [("PEG", "pUSD"), ("PEG", "pXBT"), ("pUSD", "pXBT"), ("pXBT", "pUSD"), ("pUSD", "pEUR"), ("pEUR", "pXBT"), ("pXBT", "pEUR")]
@@ -70,6 +71,10 @@ def family(seed, tier):
     for k in range(1 if tier == "quick" else 3):
         g = scen.snapshot_gap_chain(seed * 7 + k, name="c07-snapgap-%d" % k, pip10=(None if k % 2 == 0 else 150))
         docs.append((g.s["name"], g.doc()))
+    # an asset whose average is unavailable for a while (zero-rated three heights in a row), rich lists requested after every block
+    z = c13.live(seed + 17, 0, tier)
+    d = z.doc(); d["name"] = "c07-zeroavg"
+    docs.append((d["name"], d))
     return docs
 
 
